@@ -30,12 +30,16 @@ func contractServes(c *Contract, prop string) bool {
 	if prop == "C16" {
 		return true // the access discipline (data-race freedom) is checked in every function under contract
 	}
+	if strings.Contains(" "+c.Flags["serves"]+" ", " "+prop+" ") {
+		return true // every obligation of this function also counts for the listed properties
+	}
 	if hasProp(c.Props, prop) {
 		return true
 	}
 	all := append(append([]*Clause{}, c.Requires...), c.Ensures...)
 	for _, l := range c.Loops {
 		all = append(all, l.Invariants...)
+		all = append(all, l.After...)
 	}
 	for _, l := range c.Ranges {
 		all = append(all, l.Invariants...)
@@ -135,6 +139,9 @@ func main() {
 			if c := e.contracts[ob.Fn]; c != nil && c.Flags["onesection"] != "" {
 				return true
 			}
+		}
+		if c := e.contracts[ob.Fn]; c != nil && strings.Contains(" "+c.Flags["serves"]+" ", " "+*prop+" ") {
+			return true
 		}
 		return hasProp(ob.Props, *prop)
 	}
